@@ -331,6 +331,41 @@ pub fn gen_closed_compound(r: &mut Rng, lat: bool, n: usize, balls_only: bool) -
         (iso_of(q, t), s)
     }).collect())
 }
+/// follow-up 3, family (d): EVERY ordered pair of shape kinds (ball, cuboid, half-space, capsule = round segment, triangle,
+/// segment, Compound, TriMesh; half-space/half-space excluded: unsupported), relative rotation and translation both non-trivial,
+/// a non-trivial common world isometry; all five queries.  `mat` counts (kind1, kind2, query).
+pub fn gen_matrix(r: &mut Rng, lat: bool, v: &mut Vec<(String, String)>, mat: &mut std::collections::BTreeMap<(String, String), [usize; 5]>) {
+    let kind = |s: &Sh| -> String { hsh(s).split_whitespace().next().unwrap().to_string() };
+    let mk = |r: &mut Rng, k: u8| -> Sh { match k { 6 => gen_compound(r, lat), 7 => gen_trimesh(r, lat), k => gen_shape(r, lat, &[k]) } };
+    for k1 in 0..8u8 { for k2 in 0..8u8 {
+        if k1 == 2 && k2 == 2 { continue; }
+        let s1 = mk(r, k1); let s2 = mk(r, k2);
+        let (p1, p2, g) = loop {
+            let (p1, p2, _) = gen_poses(r, lat, &s1, &s2);
+            let glat = lat && r.bool(); let g = d3::gen_iso(r, glat, 100.0);
+            let rel = p1.inv_mul(&p2);
+            if !is_identity_rot(&rel) && !is_identity_rot(&g) && rel.translation.vector.norm() > 1e-6 { break (p1, p2, g); }
+        };
+        let par = gen_param(r, lat);
+        let sw = format!("{} {} {} {} {}", hsh(&s1), d3::hiso(&p1), hsh(&s2), d3::hiso(&p2), d3::hiso(&g));
+        v.push(("o_contact".into(), format!("{} {}", sw, hx(par))));
+        v.push(("o_cp".into(), format!("{} {}", sw, hx(par))));
+        v.push(("o_distance".into(), sw.clone()));
+        v.push(("o_it".into(), sw));
+        // a cast towards each other from a separated start
+        let reach = size(&s1) + size(&s2);
+        let dir = gen_normal(r, lat);
+        let mut q2 = p2; q2.translation.vector = p1.translation.vector + dir * (reach * if lat { 1.5 } else { r.uniform(1.2, 2.5) } + 0.25);
+        let speed = if lat { *r.pick(&[0.25, 1.0, 4.0]) } else { r.logu(1e-1, 1e1) };
+        let v1 = if lat { Vector::new(quarter(r, 8), quarter(r, 8), quarter(r, 8)) } else { d3::gen_v(r, false, 2.0) };
+        let v2 = v1 - dir * speed;
+        let target = if r.bool() { 0.0 } else if lat { 0.25 } else { r.logu(1e-2, 0.5) };
+        v.push(("o_cast".into(), format!("{} {} {} {} {} {} {} {} {} {}", hsh(&s1), d3::hiso(&p1), d3::hv(&v1), hsh(&s2), d3::hiso(&q2), d3::hv(&v2),
+            d3::hiso(&g), hx(target), b(r.bool()), hx(f64::MAX))));
+        let e = mat.entry((kind(&s1), kind(&s2))).or_insert([0; 5]);
+        for x in e.iter_mut() { *x += 1; }
+    } }
+}
 /// follow-up 3 generator: swapped wrappers (composite arms, shape casts, non-linear casts) and NonlinearRigidMotion helpers
 pub fn gen_wrap(r: &mut Rng, it: usize, v: &mut Vec<(String, String)>, cov: &mut std::collections::BTreeMap<(String, String, String), usize>) {
     let lat = it % 2 == 0;
@@ -922,6 +957,12 @@ pub fn gen(r: &mut Rng, thorough: bool) -> Vec<(String, String)> {
     let mut cov: std::collections::BTreeMap<(String, String, String), usize> = Default::default();
     for it in 0..n { gen_wrap(r, it, &mut v, &mut cov); }
     if std::env::var("VERIF_DBG").is_ok() { for ((k1, k2, f), c) in &cov { eprintln!("C03 wrap coverage: {} / {} {} = {}", k1, k2, f, c); } }
+    // ---- family (d): the full ordered pair-kind x query matrix
+    let mut mat: std::collections::BTreeMap<(String, String), [usize; 5]> = Default::default();
+    for rep in 0..(if thorough { 20 } else { 2 }) { gen_matrix(r, rep % 2 == 0, &mut v, &mut mat); }
+    if std::env::var("VERIF_DBG").is_ok() {
+        for ((k1, k2), c) in &mat { eprintln!("C03 matrix (contact cp distance it cast): {} / {} = {} {} {} {} {}", k1, k2, c[0], c[1], c[2], c[3], c[4]); }
+    }
     v
 }
 
